@@ -7,6 +7,7 @@ META = dict(
     outside='allocations inside libyaml / stdio; vnaproperty, vnacal_new, parameter and calibration objects (not built); more than one failure; fault indices are '
             'enumerated (a symbolic fault index makes every later allocation symbolic and exhausts memory)',
     assumptions=['every malloc/calloc/realloc of the library goes through the fault hook (ll2c --alloc-hook)', 'vasprintf stub does not fail'],
+    nontrivial_witness='faulted call failed cleanly',
     rule='one CBMC run per (shape1, mode, operation, shape2, K); non-trivial = the fault index hits an allocation of the call',
     explanation='bounded fault injection into the real vnadata code under CBMC: ENOMEM or success, state preserved, repeat equals fault-free run, no leak',
 )
